@@ -26,12 +26,14 @@ def parseOp : Sexp → Option Op
   | list [atom "setdefault", i, k, h] => do pure (.setdefault (← i.toNat?) (← nm k) (← optNat h))
   | list (atom "update" :: i :: _ :: kvs) => do pure (.update (← i.toNat?) (← pairs kvs))
   | list [atom "get", i, k] => do pure (.get (← i.toNat?) (← nm k))
+  | list [atom "getd", i, k, d] => do pure (.getd (← i.toNat?) (← nm k) (← d.toNat?))
   | list [atom "getitem", i, k] => do pure (.getitem (← i.toNat?) (← nm k))
   | list [atom "lookup", i, k, r] => do pure (.lookup (← i.toNat?) (← nm k) (← r.toBool?))
   | list [atom "contains", i, k] => do pure (.contains (← i.toNat?) (← nm k))
   | list [atom "del", i, k] => do pure (.del (← i.toNat?) (← nm k))
   | list [atom "pop", i, k] => do pure (.pop (← i.toNat?) (← nm k))
   | list [atom "popd", i, k] => do pure (.popd (← i.toNat?) (← nm k))
+  | list [atom "popdv", i, k, d] => do pure (.popdv (← i.toNat?) (← nm k) (← d.toNat?))
   | list [atom "clone", i, atom "inherit"] => do pure (.clone (← i.toNat?) .inherit)
   | list [atom "clone", i, atom "none"] => do pure (.clone (← i.toNat?) .none)
   | list [atom "clone", i, p] => do pure (.clone (← i.toNat?) (.some (← p.toNat?)))
@@ -46,11 +48,13 @@ def parseOp : Sexp → Option Op
 def parseDOp : Sexp → Option DOp
   | list [atom "set", k, v] => do pure (.set (← nm k) (← v.toNat?))
   | list [atom "get", k] => do pure (.get (← nm k))
+  | list [atom "getd", k, d] => do pure (.getd (← nm k) (← d.toNat?))
   | list [atom "getitem", k] => do pure (.getitem (← nm k))
   | list [atom "contains", k] => do pure (.contains (← nm k))
   | list [atom "del", k] => do pure (.del (← nm k))
   | list [atom "pop", k] => do pure (.pop (← nm k))
   | list [atom "popd", k] => do pure (.popd (← nm k))
+  | list [atom "popdv", k, d] => do pure (.popdv (← nm k) (← d.toNat?))
   | list [atom "setdefault", k, v] => do pure (.setdefault (← nm k) (← v.toNat?))
   | list (atom "update" :: _ :: kvs) => do pure (.update (← pairs kvs))
   | _ => none
@@ -65,6 +69,7 @@ def outS : Out → Sexp
   | .scope i => list [atom "scope", ofNat i]
   | .recursion => atom "recursion"
   | .bad => atom "bad"
+  | .dflt d => list [atom "dflt", ofNat d]
 
 def optS : Option Nat → Sexp
   | none => atom "none"
